@@ -103,6 +103,15 @@ class C04(core.Prop):
                         for el in els[1:]:
                             el['ord'] = 'o%d' % el['v']
                         out.append(s)
+        # other spellings of the numbers (everything float() reads is a number: exponents, bare leading/trailing dot)
+        for nf in (('ded', '.d') if tier == 'quick' else ('ded', 'de-d', 'd.dE+d', '.d', 'd.', 'dd')):
+            for form in ('q_kw', 'qw_pos', 'w_kw'):
+                s = gg.copy.deepcopy(gg.tree_shapes(2, max_nest=1)[0])
+                els = list(gg.elems(s['chain']))
+                els[1]['ann'] = form
+                els[1]['ord'] = 'o%d' % els[1]['v']
+                s['numform'] = nf
+                out.append(s)
         # the same annotation form on two nodes (the two tokens can be spelled identically: caches, shared defaults)
         for form in ('free', 'q_free', 'free_uc', 'wq_kw'):
             for base in gg.tree_shapes(2, max_nest=1) + (gg.tree_shapes(3, max_nest=1) if tier != 'quick' else []):
@@ -124,7 +133,7 @@ class C04(core.Prop):
         return out
 
     def build(self, shape):
-        rec = gg.make_holes(shape)
+        rec = gg.make_holes(shape, numform=shape.get('numform', 'sd.d'))
         text, conds = gg.render(shape, rec)
         for c in conds:
             symx.ENG.assume(c)
